@@ -1,5 +1,6 @@
 import FqModel.Proto
 import FqModel.ToBits
+import FqModel.LargeObs
 /-!
   driver for C05.  One case line per decode value (all operations on it = one history):
 
@@ -329,7 +330,58 @@ def stepAgg (op obs : String) : String :=
             s!"PROPFAIL leaf={i} of {cs.length} rendered by one conversion: {why}" ++ (if divS.isEmpty then "" else s!" ;DIVERGE {divS}")
           | _ => if divS.isEmpty then "OK" else s!"DIVERGE {divS}"
 
+/-! ### large values:  lv <format> <seed> <nbytes> <hdr|-> <path> <start> <len> <op>  TAB  <bytes> <ok|…> <hashes> <mm> | md5 <hex>
+    (harness/cmd/c05/large.go).  The input file is regenerated from the seed; the expected bytes are the
+    specification `bitsToBytesPadR (pad zero bits ++ slice file start len)` (pad = the < 8 zero bits `tobytes`
+    puts in front; 0 for `rhex`), computed on a ByteArray and cross-checked against the list definition
+    (`LargeObs.selfCheck`); compared by length and FNV-1a-64 per 4096-byte block. -/
+
+def stepLarge (op obs : String) : String :=
+  match words op with
+  | [_, _fmt, seed, nbytes, hdr, _path, start, len, o] =>
+    match seed.toNat?, nbytes.toNat?, start.toNat?, len.toNat?, (if hdr == "-" then some [] else bytesOfHex hdr) with
+    | some seed, some nbytes, some start, some len, some hdr =>
+      if start + len > 8 * nbytes || nbytes > 3000000 || hdr.length > nbytes then "BADOP lv range" else
+      let d0 := LargeObs.genBytes seed nbytes
+      let d := (ByteArray.mk hdr.toArray) ++ d0.extract hdr.length d0.size
+      let pad := (8 - len % 8) % 8
+      let left := LargeObs.packBits d start len pad
+      if !LargeObs.selfCheck d start len pad left then "BADOP packBits disagrees with bitsToBytesPadR" else
+      let exp : Option ByteArray := match o.splitOn ":" with
+        | ["stdout"] | ["hex"] | ["base64"] | ["string"] | ["byte_array"] | ["tobits"] | ["md5"] => some left
+        | ["slice", a, b] => match a.toNat?, b.toInt? with
+          | some a, some b => some (left.extract a (if b < 0 then left.size else b.toNat))
+          | _, _ => none
+        | ["rhex"] =>
+          let r := LargeObs.packBits d start len 0
+          if LargeObs.selfCheck d start len 0 r then some r else none
+        | _ => none
+      match exp with
+      | none => "BADOP lv op"
+      | some exp =>
+        match words obs with
+        | ["md5", h] =>
+          if o != "md5" then "BADOP md5 observation" else
+          if h.toList == hexChars (C05Md5.digest exp.toList) then "OK"
+          else "PROPFAIL md5: not the digest of the value's bytes"
+        | [n, ec, hs, mm] =>
+          match n.toNat? with
+          | none => "BADOP lv count"
+          | some n =>
+            if o == "md5" then "BADOP md5 op without digest" else
+            let mmS := if mm == "-" then "" else s!" (harness reference differs at block:bytes {mm.take 80}…)"
+            match LargeObs.compare exp n hs with
+            | some why => s!"PROPFAIL op={o} {why}{mmS}"
+            | none =>
+              if ec != "ok" then s!"PROPFAIL op={o} {ec}"
+              else if mm != "-" then "BADOP the harness reference differs although the hashes agree"
+              else "OK"
+        | _ => "BADOP lv obs"
+    | _, _, _, _, _ => "BADOP lv numbers"
+  | _ => "BADOP lv syntax"
+
 def stepAll (op obs : String) : String :=
+  if op.startsWith "lv " then stepLarge op obs.trimAscii.toString else
   if op.startsWith "a " then stepAgg op obs else step op obs
 
 end DrvC05
